@@ -1398,10 +1398,13 @@ class PolyhedralTermList(TermList):  # noqa: WPS338
             return term.substitute_variable(var_to_elim, goal_context[0].isolate_variable(var_to_elim)), total_calls
 
         ############
+        # The isolated expression bounds var_to_elim from above when its coefficient in term is positive and
+        # from below when it is negative; it has to be refined in the direction that keeps the substitution sound.
+        direction = 1.0 if term.get_coefficient(var_to_elim) > 0 else -1.0
         for useful_term in useful_context:
             new_context = context.copy()
             new_context.terms.remove(useful_term)
-            new_term = useful_term.isolate_variable(var_to_elim)
+            new_term = useful_term.isolate_variable(var_to_elim).multiply(direction)
             new_no_vars = no_vars.copy()
             new_no_vars.append(var_to_elim)
             try:  # noqa: WPS229
@@ -1411,7 +1414,7 @@ class PolyhedralTermList(TermList):  # noqa: WPS338
                 total_calls += recursive_count
                 if return_term is None:
                     continue
-                return term.substitute_variable(var_to_elim, return_term), total_calls
+                return term.substitute_variable(var_to_elim, return_term.multiply(direction)), total_calls
             except ValueError:
                 total_calls += 1
 
